@@ -13,8 +13,9 @@ Case: `(word (nData nColors atoms setup ops) pyout)`.
 
 Observation `((D d…) (G (label style tree)…) (E pos…) (S ((pos shared mask)…)…) (M mode))`.
 
-Answer: `impl` = the same structure predicted by the model (`Impl` = code with the F4 fix; family
-`wordold` runs the model of the code before it), `ok` = the zipper Spec on the **python**
+Answer: `impl` = the same structure predicted by the model (`Impl` = code with the F4 fix; line
+tag `wordold` runs the model of the code before it, `wordideal` the model with the ideal
+`AddData` / `RemoveData` — both used by hand only, see props.d/C13/design.md), `ok` = the zipper Spec on the **python**
 observations, `implok` = the zipper Spec on the model's trace, `p` = the history is inside the
 hypothesis of `zipper_refinement_partial` (`cleanWord`), `br` = features of the history, `blame` =
 the kind of command undone / redone at the first step the Spec rejects in the python trace. -/
@@ -124,8 +125,8 @@ structure Walk where
   snaps : List Sexp
   trunc : Bool
 
-def walkStep (fixed : Bool) (atoms : Nat → Nat → List Bool) (w : Walk) (op : Op) : Walk :=
-  let r := C13Undo.step fixed w.st op
+def walkStep (S : Sem) (atoms : Nat → Nat → List Bool) (w : Walk) (op : Op) : Walk :=
+  let r := S.step w.st op
   let (dk, uk, act, tr) : List String × List String × String × Bool :=
     match op with
     | .do sp =>
@@ -151,16 +152,16 @@ def result (impl : Sexp) (ok implok p : Bool) (br blame : String) : String :=
     .list [.atom "implok", Sexp.ofBool implok], .list [.atom "p", Sexp.ofBool p],
     .list [.atom "br", .atom br], .list [.atom "blame", .atom blame]])
 
-def runCase (fixed : Bool) (nd nc atomsE : Sexp) (setupE opsE : List Sexp) (pyout : Sexp) : String :=
+def runCase (S : Sem) (cl : CmdSpec → Body → Bool) (nd nc atomsE : Sexp) (setupE opsE : List Sexp) (pyout : Sexp) : String :=
   match nd.toNat?, nc.toNat?, atomsOf? atomsE, setupE.mapM setupOf?, opsE.mapM opOf? with
   | some nData, some nColors, some atoms, some sops, some ops =>
     let b0 := setup nData nColors sops
     let w0 : Walk := ⟨fresh b0, [], [], [], [], false⟩
-    let w := ops.foldl (walkStep fixed atoms) w0
+    let w := ops.foldl (walkStep S atoms) w0
     let impl := Sexp.list (obsSexp atoms b0 :: w.snaps)
-    let tr := C13Undo.trace fixed (fresh b0) ops
+    let tr := S.trace (fresh b0) ops
     let implok := Spec.check (observe b0) tr
-    let p := cleanWord fixed (fresh b0) ops && wfOk b0
+    let p := S.cleanWord cl (fresh b0) ops && wfOk b0
     -- the Spec on the python observations
     let (ok, blame) : Bool × String :=
       match pyout with
@@ -194,9 +195,11 @@ def runCase (fixed : Bool) (nd nc atomsE : Sexp) (setupE opsE : List Sexp) (pyou
 def step (line : String) : String :=
   match Sexp.parse line with
   | some (.list [.atom "word", .list [nd, nc, atoms, .list setup, .list ops], pyout]) =>
-    runCase true nd nc atoms setup ops pyout
+    runCase Impl clean nd nc atoms setup ops pyout
   | some (.list [.atom "wordold", .list [nd, nc, atoms, .list setup, .list ops], pyout]) =>
-    runCase false nd nc atoms setup ops pyout
+    runCase Old clean nd nc atoms setup ops pyout
+  | some (.list [.atom "wordideal", .list [nd, nc, atoms, .list setup, .list ops], pyout]) =>
+    runCase Ideal (fun _ _ => true) nd nc atoms setup ops pyout
   | _ => driverError "unknown-family"
 
 def main : IO Unit := driverLoop step
